@@ -39,6 +39,8 @@ type Runtime struct {
 	SyncUps  [][]*api.ContainerUpdate // updates returned by sync callbacks
 	SyncErrs []error
 	OnUpdate func([]*api.ContainerUpdate) ([]*api.ContainerUpdate, error)
+	// OnUpdateCtx, when set, additionally receives the context of each update callback
+	OnUpdateCtx func(context.Context)
 	// OnSync, when set, wraps the snapshot taking (used to insert delays / points)
 	OnSync func(take func() ([]*api.PodSandbox, []*api.Container)) ([]*api.PodSandbox, []*api.Container)
 }
@@ -100,7 +102,11 @@ func (rt *Runtime) updateFn(ctx context.Context, us []*api.ContainerUpdate) ([]*
 	rt.mu.Lock()
 	rt.Unsol = append(rt.Unsol, us)
 	f := rt.OnUpdate
+	fc := rt.OnUpdateCtx
 	rt.mu.Unlock()
+	if fc != nil {
+		fc(ctx)
+	}
 	if f != nil {
 		return f(us)
 	}
